@@ -235,6 +235,7 @@ Definition body_of (e : @fexpr T) : pbody :=
   | FQuadPert _ _ _ _ => cc_FunctionalQuadraticPerturb | FInfConv _ _ => cc_InfimalConvolution
   | FDefConj _ => cc_FunctionalDefaultConvexConjugate | FBreg _ => cc_BregmanDistance
   | FSep2 _ _ _ => cc_SeparableSum
+  | FPair _ _ => BEnd                               (* abstract pairs: see the *_pair_wired examples *)
   end.
 
 Definition attr (e : @fexpr T) (x : string) : cv :=
@@ -288,7 +289,7 @@ Hypothesis Hone : of_Z 1 = none_.
 Hypothesis Hzero : of_Z 0 = nzero.
 
 Definition constructible (e : @fexpr T) : Prop :=
-  match e with FQuadS None None _ => False | _ => True end.   (* QuadraticForm() without operator and vector raises in __init__ *)
+  match e with FQuadS None None _ | FPair _ _ => False | _ => True end.   (* QuadraticForm() without operator and vector raises in __init__ *)
 
 (* python: 1.0 / s raises ZeroDivisionError only at s = 0, which the guard s <= 0 has excluded *)
 Hypothesis Hle0 : forall s : T, neqb s nzero = true -> nleb s nzero = true.
@@ -311,7 +312,7 @@ Ltac crush :=
 
 Theorem cconj_generated w e : constructible e -> cconj w e = interp w e.
 Proof.
-  intros Hc. destruct e as [p|p| |c|c|g|a b c|s f|s f|v f|f g|f c|f t|f a u c|f g|f|q|k f g].
+  intros Hc. destruct e as [p|p| |c|c|g|a b c|s f|s f|v f|f g|f c|f t|f a u c|f g|f|q|k f g|pb P]; [..|contradiction].
   all: try destruct p.
   all: try (destruct a as [a|], b as [b|]; try contradiction).
   all: unfold interp, FUEL, body_of; red_interp; unfold rec, quarter; rewrite ?Hone, ?Hzero, ?Nat2Z.id; cbn [cconj rbind pconj].
